@@ -81,7 +81,7 @@ var setterSigma = []string{
 // VerifC05SetOneSigma: deeper windows over per-setter alphabets (the argument of host, hostname,
 // port, pathname and protocol goes through a real sub-parser).
 func VerifC05SetOneSigma() {
-	u, mu, ok := startBoth(startURLs[vnd.Pick(vnd.Param("C05.SigmaStarts", 7, 17))])
+	u, mu, ok := startBoth(startURLs[vnd.Pick(vnd.Param("C05.SigmaStarts", 8, 18))])
 	if !ok {
 		return
 	}
@@ -109,8 +109,49 @@ func setSeq(depth, k, nstarts int) {
 	}
 }
 
-func VerifC05SetSeq2() { setSeq(2, vnd.Param("C05.KSeq2", 1, 2), vnd.Param("C05.Starts2", 7, 17)) }
-func VerifC05SetSeq3() { setSeq(3, vnd.Param("C05.KSeq3", 0, 1), vnd.Param("C05.Starts3", 4, 17)) }
+func VerifC05SetSeq2() { setSeq(2, vnd.Param("C05.KSeq2", 1, 2), vnd.Param("C05.Starts2", 8, 18)) }
+func VerifC05SetSeq3() { setSeq(3, vnd.Param("C05.KSeq3", 0, 1), vnd.Param("C05.Starts3", 4, 18)) }
+
+func currentValue(u *Url, op int) string {
+	switch op {
+	case 0:
+		return u.Protocol()
+	case 1:
+		return u.Username()
+	case 2:
+		return u.Password()
+	case 3:
+		return u.Host()
+	case 4:
+		return u.Hostname()
+	case 5:
+		return u.Port()
+	case 6:
+		return u.Pathname()
+	case 7:
+		return u.Search()
+	}
+	return u.Hash()
+}
+
+// VerifC05SetSame: after two calls from the value lists (protocol, host, pathname - the ones that
+// change how a value is read), every setter is called with its own current getter value: the
+// standard re-runs the setter's parse in the new context (e.g. a first segment C| after a switch to file).
+func VerifC05SetSame() {
+	starts := []string{"http://h/C|/x", "http://u:p@h:8/p?q#f", "file:///C:/d", "a://u@h:8/p?q#f", "a:b ?q#f", "a:/.//p", "http://h/p", "a://h/C|"}
+	u, mu, ok := startBoth(starts[vnd.Pick(len(starts))])
+	if !ok {
+		return
+	}
+	ops := []int{0, 3, 6}
+	for i := 0; i < 2; i++ {
+		op := ops[vnd.Pick(len(ops))]
+		vals := setterValues[op]
+		stepBoth(u, mu, op, vals[vnd.Pick(len(vals))])
+	}
+	op := vnd.Pick(9)
+	stepBoth(u, mu, op, currentValue(u, op))
+}
 
 // VerifC05SetSymStart: symbolic start URL (context + short window), one setter from the value lists.
 func VerifC05SetSymStart() {
@@ -127,6 +168,7 @@ func VerifC05SetSymStart() {
 
 func init() {
 	verifHarnesses["VerifC05SetOne"] = VerifC05SetOne
+	verifHarnesses["VerifC05SetSame"] = VerifC05SetSame
 	verifHarnesses["VerifC05SetOneSigma"] = VerifC05SetOneSigma
 	verifHarnesses["VerifC05SetSeq2"] = VerifC05SetSeq2
 	verifHarnesses["VerifC05SetSeq3"] = VerifC05SetSeq3
